@@ -411,8 +411,6 @@ def run(chk):
         return
     rng = chk.rng
     corr = []
-    if chk.cli_ok:
-        phase_generators(chk, 40 if chk.tier == 'quick' else 600)
 
     # ---- (a) toposort_impl
     graphs = []
@@ -546,6 +544,9 @@ def run(chk):
     if proof_broken:
         chk.violation('theorem', {'theorem': 'Props/C11.v C11_topsort_good', 'cases': proof_broken[:4]},
                       'the extracted model contradicts theorem C11_topsort_good (known_C11 = None, yet good_C11 fails on the model output): proof, extraction or driver broken', no_input=True)
+    # ---- (d) the generators' use of topsort through the real binary (after (c): the pinned former witnesses are reported first)
+    if chk.cli_ok:
+        phase_generators(chk, 40 if chk.tier == 'quick' else 600)
     chk.count('correspondence_mismatches', len(corr))
     if corr and not [v for v in chk.violations if not v[2]]:
         chk.violation('correspondence', {'correspondence': 'Model/TopsortAlgo.v + Model/Topsort.v vs core::verif_hooks', 'cases': corr[:8]},
